@@ -165,14 +165,31 @@ def _call_one(chk, func, pi, path, out, obls, cur):
 
 
 # ----------------------------------------------------------------------------- isoptionaltype (callee contract)
+UNWRAP_F = z3.Function("unwrap", Val, Val)
+OPTIONAL_F = z3.Function("isoptionaltype_of_the_unwrapped_member", Val, BoolS)
+
+
+def null_member(m):
+    """the member is None / NoneType - as written, or behind NewType / alias layers - or is itself an optional annotation behind
+    such layers (`type MaybeInt = int | None`)"""
+    none_t = to_val(type(None))
+    u = UNWRAP_F(m)
+    return z3.Or(m == none_t, m == VNone, u == none_t, u == VNone, OPTIONAL_F(u))
+
+
 def isoptional_obligations(chk):
     """inspection.isoptionaltype(t) for a union t  <=>  None (or NoneType) is one of its members,
     at whatever position and for any number of members."""
     import z3 as _z3
     from pyvc.core import Stub, VStr, str_id
     I = rw.make_interp()
-    del I.stubs["typelib.py.inspection.isoptionaltype"]
     func = "typelib.py.inspection.isoptionaltype"
+    # a member may be optional behind NewType / alias layers: unwrap(member) (C11) is None / NoneType, or optional itself - the
+    # function's own answer for the unwrapped member (a strictly smaller annotation; recursive calls use this contract)
+    I.stubs["typelib.py.inspection.isoptionaltype"] = Stub("inspection.isoptionaltype", lambda I, p, a, k: SBool(OPTIONAL_F(to_val(a[0]))),
+                                                           "isoptionaltype(unwrapped member): this very contract, for a smaller annotation")
+    I.stubs["typelib.py.inspection.unwrap"] = Stub("inspection.unwrap", lambda I, p, a, k: SV(UNWRAP_F(to_val(a[0]))),
+                                                   "unwrap(member): the member with NewType / alias layers removed, never raising (C11)")
     origin_v = _z3.Function("origin_value", Val, Val)
     I.stubs["typelib.py.inspection.origin"] = Stub("inspection.origin", lambda I, p, a, k: SV(origin_v(to_val(a[0]))),
                                                    "origin(t) of a union annotation is typing.Union / types.UnionType (C17)")
@@ -193,6 +210,8 @@ def isoptional_obligations(chk):
         import typing
         import types
         path.assume(_z3.Or(origin_v(t) == to_val(typing.Union), origin_v(t) == to_val(types.UnionType)))     # t is a union
+        # the Ellipsis object (the code's "not found" marker) is not a null member: it is no NewType / alias, not None, not optional
+        path.assume(_z3.Not(null_member(to_val(Ellipsis))))
         return [SV(t)], {}, {"t": t}
     results = I.run_function(func, mk)
     for pi, (path, out, obls, writes, cur) in enumerate(results):
@@ -206,7 +225,7 @@ def _isopt_one(chk, func, pi, path, out, cur, members, nmem, NONE_T):
     t = cur["t"]
     pid = f"p{pi}"
     hy = path.hyps
-    is_none = lambda j: z3.Or(members(t, j) == NONE_T, members(t, j) == VNone)
+    is_none = lambda j: null_member(members(t, j))
     if out.kind != "ret":
         for nm in ("true-implies-a-None-member", "false-implies-no-None-member"):
             chk.add(Ob(func, nm, pid, hy, z3.BoolVal(False), {"outcome": out.kind, "why": str(out.value or out.exc)}))
